@@ -4,7 +4,7 @@
     Proofs/Writers.v. *)
 From Coq Require Import String List NArith Bool.
 From AGH Require Import Base.FS Proofs.FS Model.Writers Gen.Writers Proofs.Writers Model.SaveLoop Proofs.SaveLoop
-  Proofs.SaveOverlap Proofs.SaveSetUrl.
+  Proofs.SaveOverlap Proofs.SaveSetUrl Proofs.SaveStatus Proofs.SaveMigrate.
 Import ListNotations.
 Local Open Scope N_scope.
 
@@ -660,3 +660,218 @@ Example C14_unguarded_removal_witness :
   live_view (run s (fst (fst x))) 1 = None /\
   trace_safe 1 s (fst (fst x)) = false /\ dst_stays 1 s (fst (fst x)) = false.
 Proof. exact set_props_unguarded_witness. Qed.
+
+(** ** Round 6 (L): the HTTP status of a list download.  The "new version" of
+    a list save exists only when the list server delivered the COMPLETE body
+    with status 200 (after the redirects the client follows).  [fetch] is what
+    the HTTP client returns for a list server given as a map from URLs to
+    answers (redirect / status + body in chunks, cut or not / no answer).
+
+    As the code is ([only_200]): for every list server, redirect chain, final
+    status OTHER than 200 - 203, 204, 205, 206 with a partial body, a 3xx that
+    is not followed, 304, 4xx, 5xx - or no answer, whatever body comes with
+    it, every previous checksum and fault plan: the download fails and the
+    stored list is the previous version at every instant and after a crash at
+    every prefix. *)
+Theorem C14_non_200_keeps_file : forall St st0 feed finish sum s dst tmp fd fuel web u old_sum p,
+  quiescent s dst -> fresh_tmp s dst tmp ->
+  final_status fuel web u <> Some 200 ->
+  let x := update_from_url St st0 feed finish sum only_200 fuel web u fd tmp dst old_sum p in
+  (exists stg, snd x = Failed stg) /\
+  (forall v, In v (visible_states s (fst x) dst) -> v = live_view s dst) /\
+  live_view (run s (fst x)) dst = live_view s dst.
+Proof. exact non_200_keeps_file. Qed.
+Print Assumptions C14_non_200_keeps_file.
+
+(** A replaced list file needs a final status of 200 and a body read to its
+    end without error; it is then what the parser wrote for that body. *)
+Theorem C14_replaced_needs_200 : forall St st0 feed finish sum s dst tmp fd fuel web u old_sum p,
+  quiescent s dst -> fresh_tmp s dst tmp ->
+  let x := update_from_url St st0 feed finish sum only_200 fuel web u fd tmp dst old_sum p in
+  snd x = Replaced ->
+  exists r, fetch fuel web u = Some (200, r) /\ ends_ok r = true /\ snd (pump St feed finish st0 r) = true /\
+            live_view (run s (fst x)) dst = Some (concat (fst (pump St feed finish st0 r))).
+Proof. exact replaced_needs_200. Qed.
+Print Assumptions C14_replaced_needs_200.
+
+(** The monitor's statement, for all inputs: the final answer is a body in
+    chunks with some status; the file is the previous version, or the normal
+    form of the COMPLETE body, delivered with status 200 and not cut. *)
+Theorem C14_served_status_identity : forall St st0 feed finish sum s dst tmp fd fuel web u st chunks cut old_sum p,
+  chunking_independent St feed ->
+  quiescent s dst -> fresh_tmp s dst tmp ->
+  fetch fuel web u = Some (st, serve chunks cut) ->
+  let x := update_from_url St st0 feed finish sum only_200 fuel web u fd tmp dst old_sum p in
+  (forall v, In v (visible_states s (fst x) dst) ->
+             v = live_view s dst \/
+             (snd x = Replaced /\ st = 200 /\ cut = false /\
+              Some v = option_map Some (norm St feed finish st0 (concat chunks)))) /\
+  (snd x <> Replaced -> live_view (run s (fst x)) dst = live_view s dst).
+Proof. exact served_status_identity. Qed.
+Print Assumptions C14_served_status_identity.
+
+(** A redirect is followed: the save from [u] is the save from its target; a
+    chain longer than the client follows is no answer. *)
+Theorem C14_redirect_is_targets_save : forall St st0 feed finish sum accept fuel web u to fd tmp dst old_sum p,
+  web u = ARedirect to ->
+  update_from_url St st0 feed finish sum accept (S fuel) web u fd tmp dst old_sum p =
+  update_from_url St st0 feed finish sum accept fuel web to fd tmp dst old_sum p.
+Proof. exact redirect_is_targets_save. Qed.
+Print Assumptions C14_redirect_is_targets_save.
+
+Theorem C14_redirect_chain_too_long : forall St st0 feed finish sum accept web u to fd tmp dst old_sum p,
+  web u = ARedirect to ->
+  exists stg, snd (update_from_url St st0 feed finish sum accept 0 web u fd tmp dst old_sum p) = Failed stg.
+Proof. exact redirect_chain_too_long. Qed.
+Print Assumptions C14_redirect_chain_too_long.
+
+(** REFUTED variant (every 2xx status opens a reader): for every 2xx status
+    other than 200 and every part of a list served with it (the range of a
+    206; the nothing of a 204), the refresh reports [Replaced] and the file IS
+    that part, where the code as it is fails and keeps the previous version. *)
+Theorem C14_any_2xx_refuted : forall s dst tmp fd web u st part old_sum,
+  quiescent s dst -> fresh_tmp s dst tmp ->
+  any_2xx st = true -> st <> 200 ->
+  web u = AServe st [part] false -> len_sum part <> old_sum ->
+  let bad := st_update any_2xx max_redirects web u fd tmp dst old_sum no_faults in
+  let good := st_update only_200 max_redirects web u fd tmp dst old_sum no_faults in
+  snd bad = Replaced /\ live_view (run s (fst bad)) dst = Some part /\
+  snd good = Failed AtSource /\ live_view (run s (fst good)) dst = live_view s dst.
+Proof. exact any_2xx_refuted. Qed.
+Print Assumptions C14_any_2xx_refuted.
+
+(** Witness and satisfiable premises: stored list [10; 11; 12]; 206 with the
+    first half of [1; 2; 3; 4]; 200 with all of it; redirects to either; 204;
+    304; a redirect loop; no answer. *)
+Example C14_status_witness :
+  let s := boot [(1, [10; 11; 12])] in
+  let web (u : N) := if u =? 1 then AServe 206 [[1; 2]] false
+                     else if u =? 2 then AServe 200 [[1; 2]; [3; 4]] false
+                     else if u =? 3 then ARedirect 2
+                     else if u =? 4 then ARedirect 1
+                     else if u =? 5 then AServe 204 [] false
+                     else if u =? 6 then AServe 304 [] false
+                     else if u =? 7 then ARedirect 7
+                     else ADown in
+  let fin x := live_view (run s (fst x)) 1 in
+  quiescent s 1 /\ fresh_tmp s 1 2 /\
+  (let x := st_update any_2xx max_redirects web 1 3 2 1 3 no_faults in snd x = Replaced /\ fin x = Some [1; 2]) /\
+  (let x := st_update only_200 max_redirects web 1 3 2 1 3 no_faults in
+   snd x = Failed AtSource /\ fin x = Some [10; 11; 12] /\ fst x = [Open 3 2 fl_tmp; Close 3; Unlink 2]) /\
+  (let x := st_update only_200 max_redirects web 2 3 2 1 3 no_faults in snd x = Replaced /\ fin x = Some [1; 2; 3; 4]) /\
+  (let x := st_update only_200 max_redirects web 3 3 2 1 3 no_faults in snd x = Replaced /\ fin x = Some [1; 2; 3; 4]) /\
+  (let x := st_update only_200 max_redirects web 4 3 2 1 3 no_faults in snd x = Failed AtSource /\ fin x = Some [10; 11; 12]) /\
+  (let x := st_update any_2xx max_redirects web 5 3 2 1 3 no_faults in snd x = Replaced /\ fin x = Some []) /\
+  (let x := st_update only_200 max_redirects web 5 3 2 1 3 no_faults in snd x = Failed AtSource /\ fin x = Some [10; 11; 12]) /\
+  (let x := st_update only_200 max_redirects web 6 3 2 1 3 no_faults in snd x = Failed AtSource /\ fin x = Some [10; 11; 12]) /\
+  (let x := st_update only_200 max_redirects web 7 3 2 1 3 no_faults in snd x = Failed AtSource /\ fin x = Some [10; 11; 12]) /\
+  (let x := st_update only_200 max_redirects web 8 3 2 1 3 no_faults in snd x = Failed AtSource /\ fin x = Some [10; 11; 12]).
+Proof. exact status_witness. Qed.
+
+(** ** Round 6 (K): the migration of the legacy lease database
+    (leases.db -> data/leases.json), a save whose data live in TWO paths.
+    [visible_pairs s t dst old]: what can be read at both paths at the same
+    moment, at every instant of [t] and after a crash at every prefix (one
+    directory of the journal for both; per file any crash content).
+
+    As the code is (the legacy file is removed ONLY after the atomic write of
+    the new one succeeded): for every legacy content and its conversion, every
+    chunking, every fault plan of the write (temporary file not created: data
+    directory missing, no descriptor; a write cut: disk full, file-size limit;
+    fsync / close / rename failing) and whether or not the removal fails: at
+    every instant and after a crash at every prefix the new file is complete
+    or the legacy file is still there and complete. *)
+Theorem C14_migration_never_loses_leases : forall s old dst tmp fd conv oc chunks,
+  quiescent s dst -> quiescent s old -> fresh_tmp s dst tmp -> fresh_tmp s old tmp -> dst <> old ->
+  live_view s old = Some oc -> conv oc = ConvNew chunks ->
+  forall p rmf,
+  let x := migrate true s old dst fd tmp true conv p rmf in
+  forall v w, In (v, w) (visible_pairs s (fst x) dst old) -> v = Some (concat chunks) \/ w = Some oc.
+Proof. exact migration_never_loses_leases. Qed.
+Print Assumptions C14_migration_never_loses_leases.
+
+(** What the migration reports and where the leases are afterwards. *)
+Theorem C14_migration_result : forall s old dst tmp fd conv oc chunks,
+  quiescent s dst -> quiescent s old -> fresh_tmp s dst tmp -> fresh_tmp s old tmp -> dst <> old ->
+  live_view s old = Some oc -> conv oc = ConvNew chunks ->
+  forall p rmf,
+  let x := migrate true s old dst fd tmp true conv p rmf in
+  let fin := run s (fst x) in
+  match snd x with
+  | MigDone => live_view fin dst = Some (concat chunks) /\ live_view fin old = None /\
+               snd (write_file fd tmp dst chunks p) = Replaced /\ rmf = false
+  | MigErr => live_view fin old = Some oc /\
+              (snd (write_file fd tmp dst chunks p) = Replaced -> rmf = true /\ live_view fin dst = Some (concat chunks)) /\
+              (snd (write_file fd tmp dst chunks p) <> Replaced -> live_view fin dst = live_view s dst)
+  | MigNothing => False
+  end.
+Proof. exact migration_result. Qed.
+Print Assumptions C14_migration_result.
+
+(** No legacy file, an unreadable one, one that does not decode or decodes to
+    no table: the migration does nothing to the file system. *)
+Theorem C14_migration_nothing_to_do : forall guard s old dst fd tmp readable conv p rmf,
+  live_view s old = None \/ readable = false \/
+  (forall oc, live_view s old = Some oc -> conv oc = ConvNothing \/ conv oc = ConvErr) ->
+  fst (migrate guard s old dst fd tmp readable conv p rmf) = [].
+Proof. exact migrate_no_ops. Qed.
+Print Assumptions C14_migration_nothing_to_do.
+
+(** REFUTED variant (the removal of the legacy file does not look at the
+    result of the write): for EVERY plan under which the write does not
+    replace the file, the call reports the error, dst is as it was and the
+    legacy file is gone: the lease database holds neither version. *)
+Theorem C14_unconditional_removal_loses_leases : forall s old dst tmp fd conv oc chunks,
+  quiescent s dst -> fresh_tmp s dst tmp -> dst <> old ->
+  live_view s old = Some oc -> conv oc = ConvNew chunks ->
+  forall p,
+  snd (write_file fd tmp dst chunks p) <> Replaced ->
+  let x := migrate false s old dst fd tmp true conv p false in
+  let fin := run s (fst x) in
+  snd x = MigErr /\ live_view fin old = None /\ live_view fin dst = live_view s dst.
+Proof. exact unconditional_removal_loses_leases. Qed.
+Print Assumptions C14_unconditional_removal_loses_leases.
+
+(** ... and every injected fault is such a plan. *)
+Theorem C14_failing_plans_do_not_replace : forall fd tmp dst chunks p,
+  p_open p || p_sync p || p_close p || p_rename p = true \/ snd (do_writes chunks (p_write p)) = false ->
+  snd (write_file fd tmp dst chunks p) <> Replaced.
+Proof. exact failing_plans_do_not_replace. Qed.
+Print Assumptions C14_failing_plans_do_not_replace.
+
+(** Premises satisfiable and witnesses: legacy file 2 = [7; 8; 9] converting to
+    [20; 21; 22], dst 1 absent; success, data directory missing, a write cut,
+    fsync failing, the removal failing; the refuted variant on the same
+    inputs, with the pair (no file, no file) visible in its trace and in none
+    of the code's. *)
+Example C14_migration_premises :
+  let s := boot [(2, [7; 8; 9])] in
+  let conv (c : data) := ConvNew [[20]; [21; 22]] in
+  let mig g p rmf := migrate g s 2 1 4 3 true conv p rmf in
+  let fin x := (live_view (run s (fst x)) 1, live_view (run s (fst x)) 2) in
+  let nodir := {| p_open := true; p_write := None; p_sync := false; p_close := false; p_rename := false |} in
+  let cutw := {| p_open := false; p_write := Some (1%nat, 1); p_sync := false; p_close := false; p_rename := false |} in
+  let nosync := {| p_open := false; p_write := None; p_sync := true; p_close := false; p_rename := false |} in
+  quiescent s 1 /\ quiescent s 2 /\ fresh_tmp s 1 3 /\ fresh_tmp s 2 3 /\
+  (let x := mig true no_faults false in
+   snd x = MigDone /\ fin x = (Some [20; 21; 22], None) /\
+   fst x = [Open 4 3 fl_tmp; Write 4 [20]; Write 4 [21; 22]; Fsync 4; Close 4; Rename 3 1; Unlink 2]) /\
+  (let x := mig true nodir false in snd x = MigErr /\ fin x = (None, Some [7; 8; 9]) /\ fst x = []) /\
+  (let x := mig true cutw false in
+   snd x = MigErr /\ fin x = (None, Some [7; 8; 9]) /\
+   fst x = [Open 4 3 fl_tmp; Write 4 [20]; Write 4 [21]; Close 4; Unlink 3]) /\
+  (let x := mig true nosync false in snd x = MigErr /\ fin x = (None, Some [7; 8; 9])) /\
+  (let x := mig true no_faults true in snd x = MigErr /\ fin x = (Some [20; 21; 22], Some [7; 8; 9])) /\
+  (* the refuted variant on the same inputs *)
+  (let x := mig false nodir false in snd x = MigErr /\ fin x = (None, None) /\ fst x = [Unlink 2]) /\
+  (let x := mig false cutw false in
+   snd x = MigErr /\ fin x = (None, None) /\
+   fst x = [Open 4 3 fl_tmp; Write 4 [20]; Write 4 [21]; Close 4; Unlink 3; Unlink 2]) /\
+  (let x := mig false nosync false in snd x = MigErr /\ fin x = (None, None)) /\
+  (* ... and the pair (nothing, nothing) is visible in its trace, in none of the code's *)
+  existsb (fun vw => match vw with (None, None) => true | _ => false end)
+          (visible_pairs s (fst (mig false cutw false)) 1 2) = true /\
+  forallb (fun p => forallb (fun vw => match vw with (None, None) => false | _ => true end)
+                            (visible_pairs s (fst (mig true p false)) 1 2))
+          [no_faults; nodir; cutw; nosync] = true.
+Proof. exact migrate_premises. Qed.
